@@ -14,6 +14,8 @@ mod memmodel;
 mod oracle_r;
 mod props_hyb;
 mod props_hyb2;
+mod props_c03;
+mod props_c04;
 mod props_c07;
 mod props_c10;
 mod props_mem;
@@ -33,6 +35,8 @@ pub fn all_props() -> Vec<Box<dyn framework::Prop>> {
     }
     v.push(Box::new(props_c10::C10Prop));
     v.push(Box::new(props_c07::C07Prop));
+    v.push(Box::new(props_c04::C04Prop));
+    v.push(Box::new(props_c03::C03Prop));
     v
 }
 
